@@ -177,6 +177,61 @@ def pred_tagged_backtracking_or(case) -> bool:
     return any(v[0] == "OR" and v[3] and not L.or_is_dispatch(v, p) for v, _ in walk_vpats(p))
 
 
+def pred_tagged_dispatch_in_alt(case) -> bool:
+    """an OpIdDispatchOr with a tag variable is matched inside a BacktrackingOr alternative (directly, or in the
+    inputs of a node pattern reached from one): _match_value ignores the result of bind(tag_var, i), so a clash
+    leaves the sub-match failed while True is returned, and merge_current_match raises ValueError (finding C06-F9)"""
+    p = case["pattern"]
+
+    def tagged(v):
+        if v[0] != "OR":
+            return False
+        if v[3] and L.or_is_dispatch(v, p):
+            return True
+        return any(tagged(a) for a in v[5])
+
+    for i in nodes_reachable_in_alt(p):
+        if any(v is not None and tagged(v) for v in p["nodes"][i]["inputs"]):
+            return True
+    return any(ctx == "alt" and v[0] == "OR" and v[3] and L.or_is_dispatch(v, p) for v, ctx in walk_vpats(p))
+
+
+def pred_tagged_dispatch_and_backtracking(case) -> bool:
+    """an OpIdDispatchOr with a tag variable and a BacktrackingOr in one pattern: after an ignored tag clash at top
+    level the current partial match is failed while matching goes on; merging the next successful BacktrackingOr
+    alternative into it raises NotImplementedError('Merging failed matches is not yet supported.') (C06-F9)"""
+    p = case["pattern"]
+    return has_backtracking_or(p) and any(
+        v[0] == "OR" and v[3] and L.or_is_dispatch(v, p) for v, _ in walk_vpats(p))
+
+
+def exception_explained(case, body: str) -> bool:
+    """the real matcher raised where the model (which has no exception channel) goes on: open finding C06-F9, and
+    the predicate of the repaired C06-F8 (a regression of F8 is caught by its probe)"""
+    if body.startswith("EXC:ValueError"):
+        return pred_tagged_backtracking_or(case) or pred_tagged_dispatch_in_alt(case)
+    if body.startswith("EXC:NotImplementedError"):
+        return pred_tagged_dispatch_and_backtracking(case)
+    return False
+
+
+def shared_tag_vars(p) -> bool:
+    """some tag variable is used by two OR values, or is also the name of a value pattern"""
+    seen = Counter()
+    names = set()
+    ids = set()
+    for v, _ in walk_vpats(p):
+        if v[0] == "OR":
+            if v[3] and v[1] not in ids:
+                seen[v[3]] += 1
+            ids.add(v[1])
+            if v[2]:
+                names.add(v[2])
+        elif v[0] == "V" and v[2]:
+            names.add(v[2])
+    return any(n > 1 or t in names for t, n in seen.items())
+
+
 KNOWN = [
     # id, direction ("miss" = real reports no match although an instance exists; "bogus" = real reports a
     # match that is no instance), predicate
@@ -186,6 +241,8 @@ KNOWN = [
     ("C06-F3", "bogus", pred_check_in_alt),
     ("C06-F4", "bogus", pred_alt_node_shared),
     ("C06-F8", "exception:ValueError", pred_tagged_backtracking_or),
+    ("C06-F9", "exception:ValueError", pred_tagged_dispatch_in_alt),
+    ("C06-F9", "exception:NotImplementedError", pred_tagged_dispatch_and_backtracking),
 ]
 
 # --------------------------------------------------------------------------- evaluation (worker side)
@@ -291,8 +348,8 @@ def judge(case, r, stats: Counter):
     body = real.split(" ", 1)[1] if real.startswith("on=") else real
     if body.startswith("EXC:"):
         stats["real_exception"] += 1
-        if body == "EXC:ValueError" and pred_tagged_backtracking_or(case):
-            tie = None  # merge_current_match raises (finding C06-F8); the model has no exception channel and
+        if exception_explained(case, body):
+            tie = None  # merge_current_match raises (findings C06-F8/F9); the model has no exception channel and
             # goes on with the next alternative, so its answer is not compared here
         return tie, f"the matcher raised {body[4:]}", "exception:" + body[4:]
     sols = parse_spec(spec)
@@ -319,10 +376,10 @@ def commute_agree(case, real: str, model: str) -> bool:
     if real == model:
         return True
     a, b = real.split(" || "), model.split(" || ")
-    if len(a) != len(b) or a[0] != b[0] or not pred_tagged_backtracking_or(case):
+    if len(a) != len(b) or a[0] != b[0]:
         return False
     # a variant on which merge_current_match raises (finding C06-F8) is not compared
-    return all(x == y or (x.startswith("EXC:ValueError") and x.split(" #K ")[-1] == y.split(" #K ")[-1])
+    return all(x == y or (exception_explained(case, x) and x.split(" #K ")[-1] == y.split(" #K ")[-1])
                for x, y in zip(a[1:], b[1:]))
 
 
@@ -371,6 +428,8 @@ def features_of(case, stats: Counter):
             kinds["or_dispatch" if L.or_is_dispatch(v, p) else "or_backtracking"] += 1
             if v[3]:
                 kinds["or_tagvar"] += 1
+                if L.or_is_dispatch(v, p):
+                    kinds["or_dispatch_tagvar"] += 1
         else:
             kinds["vp_" + v[0]] += 1
             if v[0] == "V" and v[3]:
@@ -395,6 +454,8 @@ def features_of(case, stats: Counter):
     outs = {o[1] for o in p["outputs"] if o[0] == "O"}
     if len(outs) > 1:
         kinds["multi_output_nodes_pattern"] += 1
+    if kinds["or_tagvar"] and shared_tag_vars(p):
+        kinds["or_tagvar_shared"] += 1
     if case["rm"]:
         kinds["remove_nodes"] += 1
     if p.get("via") == "callable":
@@ -591,9 +652,9 @@ def main(run: core.Run) -> None:
         "numeric tolerance of Constant patterns is an abstract relation `close` in the theorems; the driver and the "
         "generated cases use small integers, where math.isclose is equality (C05 judges the tolerance itself)",
         "check callbacks and the condition function are opaque booleans (constant per pattern object)",
-        "outside the correspondence domain (documented, kept out of generation): scalar AttrConstantPattern "
-        "against a list attribute (TypeError, finding C06-F6), a BacktrackingOr tag variable clashing with another "
-        "binding (ValueError from merge_current_match)",
+        "the model has no exception channel: where the real matcher raises after an ignored OpIdDispatchOr tag clash "
+        "(open finding C06-F9: ValueError / NotImplementedError out of merge_current_match) the model's answer is not "
+        "compared (the cases are generated and counted as known finding)",
     ]
     audit = run.prove(PROP_MODULES)
     drv = core.Driver("C06")
@@ -652,7 +713,7 @@ def main(run: core.Run) -> None:
     special_witnesses(run, findings)
     samples: list = []
     ctx = mp.get_context("fork")
-    run_jobs(None, [("cases", corpus), ("cases", G.tolerance_cases())], stats, problems, findings, known_counts, samples)
+    run_jobs(None, [("cases", corpus), ("cases", G.tolerance_cases()), ("cases", G.tag_cases())], stats, problems, findings, known_counts, samples)
     with ctx.Pool(workers) as pool:
         run_jobs(pool, jobs, stats, problems, findings, known_counts, samples)
         # second exhaustive block (thorough): 3-node core patterns x <=2-node graphs, dispatched in slices while
@@ -763,7 +824,8 @@ def main(run: core.Run) -> None:
         raise core.Infra("generator degenerated: >30% of patterns refused by the pattern API")
     if total and stats["real_match"] < 0.03 * total:
         raise core.Infra("generator degenerated: <3% of cases match")
-    required = ["feat_or_backtracking", "feat_or_dispatch", "feat_or_tagvar", "feat_multi_output_nodes_pattern",
+    required = ["feat_or_backtracking", "feat_or_dispatch", "feat_or_tagvar", "feat_or_dispatch_tagvar",
+                "feat_or_tagvar_shared", "feat_multi_output_nodes_pattern",
                 "feat_multi_output_node", "feat_input_none", "feat_attr_c", "feat_attr_v",
                 "feat_allow_other_attributes_false", "feat_allow_other_inputs", "feat_node_check", "feat_prefix_pattern",
                 "feat_foreign_values", "feat_external_uses", "feat_var_can_match_none", "feat_vp_K", "feat_vp_A",
